@@ -55,7 +55,8 @@ def split_rows(sysd, gro):
     for mi, mt in enumerate(T.expand(sysd)):
         for ri, rn in enumerate(mt["res"]):
             na = len(sysd["residues"][rn]["atoms"])
-            groups.append({"mol": mi, "molname": mt["name"], "res": ri, "resname": rn, "rows": gro["rows"][k:k + na]})
+            groups.append({"mol": mi, "molname": mt["name"], "res": ri, "resname": rn, "rows": gro["rows"][k:k + na],
+                           "resid": mt.get("resids", range(1, 10 ** 6))[ri]})
             k += na
     return groups
 
@@ -114,7 +115,7 @@ def make_options(rng, sysd, workdir, res, allow=("plain", "c_full", "c_prefix", 
             for g in sup:
                 c = np.mean([r["xyz"] for r in g["rows"]], axis=0)
                 c = tuple(round(float(x), 3) for x in c)
-                rows.append({"resid": g["res"] + 1, "resname": g["resname"], "name": "CG", "xyz": c})
+                rows.append({"resid": g["resid"], "resname": g["resname"], "name": "CG", "xyz": c})
                 info["centres"].append((g, c))
             T.write_gro(os.path.join(workdir, "in_mc.gro"), rows, base["box"])
             kw["coordpath_meta"] = Path(workdir) / "in_mc.gro"
@@ -122,7 +123,7 @@ def make_options(rng, sysd, workdir, res, allow=("plain", "c_full", "c_prefix", 
             rows = []
             for g in sup:
                 for r in g["rows"]:
-                    rows.append({"resid": g["res"] + 1, "resname": g["resname"], "name": r["name"], "xyz": r["xyz"]})
+                    rows.append({"resid": g["resid"], "resname": g["resname"], "name": r["name"], "xyz": r["xyz"]})
             T.write_gro(os.path.join(workdir, "in.gro"), rows, base["box"])
             kw["coordpath"] = Path(workdir) / "in.gro"
             info["supplied"] = sup
@@ -142,7 +143,7 @@ def make_options(rng, sysd, workdir, res, allow=("plain", "c_full", "c_prefix", 
         mi = rng.randrange(len(mols))
         mt = mols[mi]
         ri = rng.randrange(len(mt["res"]))
-        kw["start"] = ["%s#%d-%s#%d" % (mt["name"], mi, mt["res"][ri], ri + 1)]
+        kw["start"] = ["%s#%d-%s#%d" % (mt["name"], mi, mt["res"][ri], mt.get("resids", range(1, 10 ** 6))[ri])]
         info["start"] = kw["start"]
     if mode == "bvol":
         rn = rng.choice(sorted(sysd["residues"]))
